@@ -22,7 +22,8 @@ type Decision struct {
 
 type Violation struct {
 	Harness   string            `json:"harness"`
-	Kind      string            `json:"kind"` // assert, panic, nontermination, alloc
+	Kind      string            `json:"kind"` // assert, panic, nontermination, alloc, shared-write
+	Detail    string            `json:"detail,omitempty"`
 	Label     string            `json:"label"`
 	Site      string            `json:"site,omitempty"`
 	Model     map[string]string `json:"model"`   // variable -> hex value
@@ -63,6 +64,8 @@ type HarnessResult struct {
 	Assumptions   map[string]bool
 	BudgetPaths   []Violation
 	FeasUnknown   int
+	IsoCalls      int // vh.Isolated regions executed (write-set recorder on)
+	IsoCells      int // largest number of pre-existing heap cells watched in one region
 }
 
 type Config struct {
@@ -162,6 +165,9 @@ type Worker struct {
 	fb map[string]*Solver
 
 	globals      map[*ssa.Global]*Value
+	iso          *isoState // non-nil while a vh.Isolated closure runs
+	lockDepth    int       // > 0 inside sync.Once.Do / between Lock and Unlock
+	cur          *frame
 	inited       map[*ssa.Package]bool
 	fnInfos      map[*ssa.Function]*fnInfo
 	built        map[*ssa.Package]bool
@@ -662,7 +668,13 @@ func (w *Worker) violation(kind, label, site string, cond *Term) {
 		w.E.mu.Unlock()
 		return
 	}
-	v := Violation{Harness: w.E.entry.Name(), Kind: kind, Label: label, Site: site, Model: m,
+	detail := ""
+	if kind == "shared-write" {
+		if i := strings.Index(label, " | "); i >= 0 {
+			label, detail = label[:i], label[i+3:]
+		}
+	}
+	v := Violation{Harness: w.E.entry.Name(), Kind: kind, Label: label, Site: site, Model: m, Detail: detail,
 		Choices: append([]int{}, w.choices...), Decisions: append([]Decision{}, w.trace...)}
 	w.pathViol++
 	w.E.mu.Lock()
@@ -856,6 +868,7 @@ func (w *Worker) runPath(fn *ssa.Function, prefix []Decision) {
 	w.pathViol = 0
 	w.stubs = map[string]Value{}
 	w.undoOn = true
+	w.iso, w.lockDepth, w.cur = nil, 0, nil
 	if w.S.Dead() {
 		w.S.Restart()
 	}
